@@ -131,12 +131,20 @@ def lazify_task(task, start=True):
             subgraph, outkey, inkeys, *dependencies = task.args
             # If there is a reify at the output of the subgraph we don't want to act
             final_task = lazify_task(subgraph[outkey], True)
+            # If the output is an alias of an inner task, the result of that task
+            # leaves the subgraph as well
+            outputs = {outkey}
+            node = subgraph[outkey]
+            while isinstance(node, Alias) and node.target in subgraph:
+                outputs.add(node.target)
+                node = subgraph[node.target]
             # The result of an inner task is shared by everything in the subgraph
             # that refers to it. It can only stay an iterator if it is consumed once
             subgraph = {
                 k: lazify_task(
                     v,
-                    sum(_count_references(t, k) for t in subgraph.values()) != 1,
+                    k in outputs
+                    or sum(_count_references(t, k) for t in subgraph.values()) != 1,
                 )
                 for k, v in subgraph.items()
                 if k != outkey
